@@ -111,7 +111,7 @@ theorem ctx_pos (c p : Nat) (hc : c < 256) (hp : p < 256) : ((p * 256 + c) / 256
 
 /-- entry into the block loop from a state with an open block -/
 theorem decPrep_mid (st : DecState) (segs : List Seg) (store2 : List Byte) (st' : DecState) (l : Loc) (c p : Nat)
-    (hmsg : st.msg = none) (hctx : st.ctx = p * 256 + c) (hc : c < 256) (hp : p < 256)
+    (hmsg : st.msg = none) (hctx : st.ctx = p * 256 + c) (hc0 : 0 < c) (hc : c < 256) (hp : p < 256)
     (h : decPrep st segs store2 false = .inr (st', l)) :
     l.store = store2 ∧ l.code = c ∧ l.pos = p ∧ l.mlen = st.len ∧ l.r = st.curr ∧ st'.pos = l.done ∧
     st'.msg = none ∧ l.r ≤ store2.length ∧ st.pos + st.len ≤ st.curr ∧ (st.len ≠ 0 → l.done = st.pos) := by
@@ -122,6 +122,7 @@ theorem decPrep_mid (st : DecState) (segs : List Seg) (store2 : List Byte) (st' 
   · simp at h
   rename_i hg
   have hp1 := alignPost_le (cursorAt segs (st.pos + st.len)).1 (cursorAt segs (st.pos + st.len)).2 (st.curr - (st.pos + st.len))
+  have hcne : ¬ (st.ctx % 256 = 0) := by rw [hctx, ctx_code c p hc]; omega
   split at h
   · rename_i hl
     unfold decEnter at h
@@ -162,7 +163,7 @@ theorem resume_call (v : Variant) (a : Nat) (st : DecState) (store piece : List 
     exact CallRes.ofErr v c0 _ e st' _ (decPrep_err _ _ _ _ _ _ hprep)
   | inr sl =>
     obtain ⟨st', l⟩ := sl
-    obtain ⟨h1, h2, h3, h4, h5, h6, h7, h8, h9, h10⟩ := decPrep_mid st _ _ st' l c p hmsg hctx hc hp hprep
+    obtain ⟨h1, h2, h3, h4, h5, h6, h7, h8, h9, h10⟩ := decPrep_mid st _ _ st' l c p hmsg hctx hc0 hc hp hprep
     simp only
     unfold decStart
     rw [if_neg (by omega)]
@@ -204,7 +205,7 @@ theorem start_call (v : Variant) (a : Nat) (st : DecState) (store2 : List Byte) 
       split at hprep
       · simp at hprep
       try rw [if_pos hm] at hprep
-      simp only [Bool.false_eq_true, if_false] at hprep
+      simp only [Bool.false_eq_true, if_false, hf.ctx, Nat.zero_mod, if_true] at hprep
       unfold decEnter at hprep
       split at hprep
       · simp at hprep
